@@ -221,7 +221,7 @@ PROPS["C15"] = dict(
 
 
 PROPS["C14"] = dict(
-    n_quick=6000, n_thorough=200000,
+    n_quick=6000, n_thorough=200000, op_deadline=8,
     classify=lambda op, i, m: "huge:" + ("stepped" if op.split(" ")[3] != "0" else "plain") + ":" + ("desc" if int(op.split(" ")[1]) > int(op.split(" ")[2]) else "asc") + ":1e" + str(len(str(abs(int(op.split(" ")[1]) - int(op.split(" ")[2]))))),
     rule="op huge: NewFrameSet / NewFileSequence of one range A-B or A-BxN with |A|,|B| up to 1e3, 1e6, 1e9, 1e12, 1e13, both "
          "directions, N in {1,2,3,7,10,999,1e6,random<=1e6} of either sign; queries at the boundaries (index -2..2, len-3..len+2), "
@@ -270,7 +270,8 @@ PROPS["C20"] = dict(
     rule="ops handles (single-threaded history of Add/Incref/Decref/Get/Len on up to 8 handles of either map, incl. handles "
          "already released and unknown ids; every result and Len compared with the sequential model; ids checked non-zero and "
          "distinct) and hstress (2-8 goroutines x 1-8 handles x up to 3000 random owner-only operations, built with -race: no "
-         "failed lookup while owned, live count back to the start at quiescence, no race report); the driver is built on every "
+         "failed lookup while owned, live count back to the start at quiescence, no race report; each op starts with an add storm: "
+         "all goroutines create handles at once, the ids must be non-zero, pairwise distinct, resolvable and counted); the driver is built on every "
          "run from unchanged copies of /repo/exp/cpp/export/storage.go and uuid.go; non-trivial = any distinct op",
     assumptions=["interleavings of the real code are sampled (race detector + stress), the theorem covers all interleavings of the model",
                  "full period 2^64-1 of xorshift64 is cited, not proved"],
